@@ -232,6 +232,8 @@ class Repo:
             from .normalize import canonical_imports, canonical_locals
             canonical_imports(tree)
             canonical_locals(tree, rel)
+            from .normalize import canonical_forms
+            tree = canonical_forms(tree)
         self._normalise(rel, tree)
         inlined = []
         if '/tests/' not in rel:
